@@ -354,6 +354,13 @@ def build_graph(rng, root):
         feats.add('require_form:' + form)
         main_slots.insert(rng.randint(0, len(main_slots)), (txt, True))
         emit(j)
+        if pkgs[j].opt and rng.random() < 0.4:
+            # the same name once more, further down in the same file and without the option: the game loop was requested, the
+            # package is defined once and keeps it
+            first_at = next(i for i, sl in enumerate(main_slots) if sl[0] is txt)
+            txt2, form2 = require_piece(rng, nm, False, main_gap)
+            main_slots.insert(rng.randint(first_at + 1, len(main_slots)), (txt2, True))
+            feats.add('same_name_again_without_the_option')
     if lua_path_mode == 'default' and rng.random() < 0.35:
         # one file under a second require name (the default load path ?;?.lua finds pkgN.lua as "pkgN" and as "pkgN.lua"), asked
         # for with the other use_game_loop choice: two names, two packages, each stripped or not as its own require says
@@ -751,7 +758,7 @@ def gates(m, tier):
               'require_form:chain', 'require_form:nestedfn', 'require_form:in_if', 'require_form:in_else', 'require_form:in_shortif',
               'require_form:in_loop', 'require_form:in_cond', 'require_form:assign_target', 'require_form:index_target', 'require_form:compound_target', 'require_form:multi_target', 'require_form:unop', 'require_form:binop', 'require_form:table_key', 'require_form:method_arg', 'require_form:for_range', 'error:missing', 'error:noargs', 'error:threeargs', 'error:nonstring',
               'error:badoption', 'error:offpath_next_to_main', 'error:offpath_next_to_package', 'error:offpath_env', 'main_ends_with_return', 'blank_or_comment_between_require_and_parenthesis', 'required_name_with_doubled_separator', 'function_name_beginning_with_a_gameloop_name', 'other_section_from_a_cart_in_another_directory', 'gameloop_with_comment_before_or_code_after', 'gameloop_name_as_last_component', 'dotted_gameloop_name', 'package_name_non_ascii', 'directory_named_like_package', 'two_files_match_first_entry_wins', 'found_via_pattern_with_placeholder_in_directory',
-              'package_without_remaining_code:empty_file', 'package_without_remaining_code:comments_only', 'package_without_remaining_code:game_loop_only', 'one_file_two_names_opposite_options', 'main_starts_with_comment'):
+              'package_without_remaining_code:empty_file', 'package_without_remaining_code:comments_only', 'package_without_remaining_code:game_loop_only', 'one_file_two_names_opposite_options', 'same_name_again_without_the_option', 'main_starts_with_comment'):
         if f.get(k, 0) < 2:
             missed.append('%s seen %d times' % (k, f.get(k, 0)))
     if mon.get('package_bodies_compared', 0) < 100:
